@@ -29,6 +29,7 @@ class Ctx:
 
     def cfg(self, q, policy=None, key='default'):
         f = self.prog.func(q) if isinstance(q, str) else q
+        self.prog.accessed.append(f)
         k = (f.qualname, key)
         if k not in self._cfg:
             pol = policy(f) if policy is not None else DefaultPolicy(self.prog, f, self.res)
